@@ -58,23 +58,42 @@ def parse_state(text):
         st[name.strip()] = P(val).value()
     return st
 
+class LazyStates(dict):
+    """node id -> parsed state, parsed from the raw dot label on first use"""
+    def __init__(self):
+        super().__init__()
+        self.raw = {}
+    def __missing__(self, k):
+        txt = self.raw[k].replace('\\n', '\n').replace('\\"', '"').replace('\\\\', '\\')
+        v = parse_state(txt)
+        self[k] = v
+        return v
+    def __len__(self):
+        return len(self.raw)
+    def __contains__(self, k):
+        return k in self.raw
+
+
 def load_dot(path):
-    nodes, edges, init = {}, [], None
+    nodes, edges, init = LazyStates(), [], None
     node_re = re.compile(r'^(-?\d+) \[label="(.*?)(?<!\\)"(,|\])')
     edge_re = re.compile(r'^(-?\d+) -> (-?\d+) \[label="(.*?)"')
     with open(path) as f:
         for line in f:
-            m = edge_re.match(line)
-            if m:
-                edges.append((m.group(1), m.group(2), m.group(3))); continue
+            if " -> " in line[:48]:
+                m = edge_re.match(line)
+                if m:
+                    edges.append((m.group(1), m.group(2), m.group(3))); continue
             m = node_re.match(line)
             if m:
-                txt = m.group(2).replace('\\n', '\n').replace('\\"', '"').replace('\\\\', '\\')
-                nodes[m.group(1)] = parse_state(txt)
+                nodes.raw[m.group(1)] = m.group(2)
                 if "style = filled" in line and init is None: init = m.group(1)
     return nodes, edges, init
 
-def path_cover(nodes, edges, init, max_len=400):
+def path_cover(nodes, edges, init, max_len=400, limit=None, rnd=None):
+    """paths from the initial state such that every edge occurs in at least one path (BFS-tree prefix to the edge's
+    source, the edge, then a greedy walk over still uncovered edges); with limit: stop after that many paths, edges
+    taken in the order given by rnd"""
     from collections import defaultdict, deque
     out = defaultdict(list)
     for e in edges: out[e[0]].append(e)
@@ -87,8 +106,11 @@ def path_cover(nodes, edges, init, max_len=400):
         p = []
         while parent[u] is not None: p.append(parent[u]); u = parent[u][0]
         return p[::-1]
+    order = list(edges)
+    if rnd is not None:
+        rnd.shuffle(order)
     covered = set(); paths = []
-    for e in edges:
+    for e in order:
         if e in covered or e[0] not in parent or e[0] == e[1]: continue
         p = prefix(e[0]) + [e]; cur = e[1]
         for x in p: covered.add(x)
@@ -97,12 +119,6 @@ def path_cover(nodes, edges, init, max_len=400):
             if not nxt: break
             p.append(nxt[0]); covered.add(nxt[0]); cur = nxt[0][1]
         paths.append(p)
+        if limit and len(paths) >= limit:
+            break
     return paths
-
-if __name__ == "__main__":
-    nodes, edges, init = load_dot(sys.argv[1])
-    paths = path_cover(nodes, edges, init)
-    sys.stderr.write("nodes %d edges %d paths %d steps %d\n" % (len(nodes), len(edges), len(paths), sum(map(len, paths))))
-    with open(sys.argv[2], "w") as f:
-        for p in paths:
-            f.write(json.dumps([{"a": lab, "s": nodes[dst]} for (_, dst, lab) in p]) + "\n")
